@@ -12,7 +12,7 @@ block gets at least one error; for non-declaring labels every error is attribute
 faults some error covers exactly the identifier."""
 import json, os, random, re
 import xml.etree.ElementTree as ET
-import vf, docgen, xmlgen, faults
+import vf, docgen, xmlgen, faults, readerconf
 
 
 def render_layout(items, fault_tok=None):
@@ -154,7 +154,7 @@ def run(tier):
                 if not ftext.strip() or ftext == text:
                     continue
                 lay = rnd.choice(layouts_txt) if b[0] != "params" else "%s"
-                if b[0] == "sync" and re.match(r"^\s*[A-Za-z_]\w*(\[[^\]]*\])?\s*$", ftext):
+                if b[0] == "sync" and faults.is_csp_sync(ftext):
                     continue
                 fcases.append((m, b, fc, pos, text, ftext, lay))
     for n, (m, b, fc, pos, text, ftext, lay) in enumerate(fcases):
@@ -238,6 +238,19 @@ def run(tier):
         for e in r["dump"]["doc"]["errors"] + r["dump"]["doc"]["warnings"]:
             ndiag += 1
             check_diag(c, e, None, None, "xta", {"xta": xta, "fault": fc, "faulted": ftext, "diagnostic": [e["msg"], e["path"], e["sl"], e["sc"], e["el"], e["ec"]]}, plain_text=xta)
+    # ---- C. every path the real reader hands to setPath, on the base document and all its structural mutations, names exactly one element
+    rc = readerconf.run(c, quick, variant="plain")
+    npaths = 0
+    for x in rc:
+        if x["what"].startswith(("duplicate", "wrap-unknown")):
+            continue      # the reader's paths carry no index for elements that occur once in a well-formed document (declaration, system, name ...)
+        for (kind, p) in x["real"]:
+            if kind == "path":
+                npaths += 1
+                if not readerconf.xpath_selects_one(x["xml"], p):
+                    c.finding("c06:setpath-xpath:%s" % x["what"].split(" ")[0], "on a document with the mutation [%s] the reader attributes positions to `%s`, which does not select exactly one element" % (x["what"], p),
+                              {"xml": x["xml"], "mutation": x["what"], "path": p})
+    c.cov["reader_paths_checked"] = npaths
     c.cov["traces_validated_against_impl"] = nlay + nf + nx
     c.cov["evaluations"] = nlay + nf + nx
     c.cov["distinct_nontrivial"] = nf + len(layouts)
